@@ -204,7 +204,9 @@ func c12WritesReceiver(p *Pkg, fd *ast.FuncDecl) bool {
 }
 
 // c12Skeleton checks every method of UnboundedConcurrentQueue:
-//   q.guard.Lock() ; <one statement with exactly one call q.queue.M(...)> ; q.guard.Unlock() ; [return ...]
+//
+//	q.guard.Lock() ; <one statement with exactly one call q.queue.M(...)> ; q.guard.Unlock() ; [return ...]
+//
 // (or `defer q.guard.Unlock()` as the second statement; RLock/RUnlock only around a method of the
 // inner queue that writes nothing). Anything else is reported as a problem and spoils the fact.
 func c12Skeleton(p *Pkg, o *Out) string {
